@@ -6,6 +6,7 @@
 //! `vh c13 oracle <seed> <n> [start]`: the clauses of the property as predicates on the implementation; prints `FAIL <idx> <msg>`.
 //! `vh c13 one <seed> <idx>` / `vh c13 oracle1 <seed> <idx>`: a single case (replay), verbose.
 //! `vh c13 half`: the half-pixel example of notes/C13.md on the implementation.
+//! `vh c13 stale`: the known finding (enable_rounding without compute_layout) on the implementation.
 use crate::rng::Rng;
 use crate::treegen::*;
 use taffy::prelude::*;
@@ -444,6 +445,22 @@ fn half_pixel_example() {
     println!("HALF {} {}", px + la.location.x + la.size.width, px + lb.location.x);
 }
 
+/// Known finding: enable_rounding() does not round.  disable_rounding; compute_layout; enable_rounding: layout() now reads
+/// final_layout, which no rounding pass has written (Layout::new()), until the next compute_layout.
+fn stale_example() {
+    let mut t: TaffyTree<Ctx> = TaffyTree::new();
+    let leaf = t.new_leaf(Style { size: Size { width: Dimension::length(100.4), height: Dimension::length(50.6) }, ..Default::default() }).unwrap();
+    t.disable_rounding();
+    t.compute_layout(leaf, Size::MAX_CONTENT).unwrap();
+    t.enable_rounding();
+    let (l, u) = (*t.layout(leaf).unwrap(), *t.unrounded_layout(leaf));
+    println!("after disable_rounding; compute_layout; enable_rounding: layout() = {:?}x{:?}, unrounded_layout() = {:?}x{:?}", l.size.width, l.size.height, u.size.width, u.size.height);
+    println!("STALE {} {}", l.size.width, u.size.width.round());
+    t.compute_layout(leaf, Size::MAX_CONTENT).unwrap();
+    let l = *t.layout(leaf).unwrap();
+    println!("after one more compute_layout: layout() = {:?}x{:?}", l.size.width, l.size.height);
+}
+
 /// `START idx` is flushed before a case is laid out: a hang of the layout engine (not this property's business) is
 /// recognised by the driver, which restarts after the case.
 fn start_line(idx: u64) {
@@ -513,6 +530,7 @@ pub fn main(args: &[String]) {
             }
         }
         "half" => half_pixel_example(),
+        "stale" => stale_example(),
         _ => {
             eprintln!("c13: unknown command");
             std::process::exit(2);
